@@ -79,15 +79,16 @@ Section Flat.
   Definition opnd (d : nat) (v : T) (idx : list nat) : A :=
     if all1 (shape v) then sval v else at_ v (skipn d idx).
   Definition prank (vs : list T) : nat := fold_right (fun v r => Nat.max (length (shape v)) r) 0 vs.
+  (* the common shape of the operands that are not one-element tensors ([] when there is none) *)
+  Definition full_shape (vs : list T) : list nat :=
+    match find (fun v => negb (all1 (shape v))) vs with Some x => shape x | None => [] end.
   Definition pwn (F : list A -> A) (vs : list T) : T :=
-    match vs with
-    | [] => mkT [] (fun _ => F [])
-    | x :: _ => let d := prank vs - length (shape x) in
-                mkT (repeat 1 d ++ shape x) (fun idx => F (map (fun v => opnd d v idx) vs))
-    end.
-  (* every operand has the shape (and, where it matters, the content) of the first one, or is a one-element tensor *)
+    let s := full_shape vs in
+    let d := prank vs - length s in
+    mkT (repeat 1 d ++ s) (fun idx => F (map (fun v => opnd d v idx) vs)).
+  (* every operand is a one-element tensor (of any rank) or has the common full shape *)
   Definition operands_ok (vs : list T) : Prop :=
-    match vs with [] => True | x :: _ => Forall (fun v => teq v x \/ all1 (shape v) = true) vs end.
+    Forall (fun v => all1 (shape v) = true \/ shape v = full_shape vs) vs.
 
   Lemma prod_pad d s : prod (repeat 1 d ++ s) = prod s.
   Proof. induction d as [|d IH]; simpl; auto. rewrite IH. lia. Qed.
@@ -100,11 +101,50 @@ Section Flat.
 
   Lemma prank_le n vs : Forall (fun v => length (shape v) <= n) vs -> prank vs <= n.
   Proof. induction 1 as [|v r Hv _ IH]; simpl; lia. Qed.
+  Lemma prank_ge vs v : In v vs -> length (shape v) <= prank vs.
+  Proof. induction vs as [|w r IH]; simpl; intros [<-|H]; [lia | specialize (IH H); lia]. Qed.
 
-  Lemma pwn_shape F x r : Forall (fun v => length (shape v) <= length (shape x)) (x :: r) -> shape (pwn F (x :: r)) = shape x.
+  Lemma all1_repeat n : all1 (repeat 1 n) = true.
+  Proof. induction n; simpl; auto. Qed.
+  Lemma all1_eq_repeat s : all1 s = true -> s = repeat 1 (length s).
   Proof.
-    intro H. pose proof (prank_le _ _ H) as Hle. unfold pwn. cbn [shape].
-    replace (prank (x :: r) - length (shape x)) with 0 by lia. reflexivity.
+    induction s as [|d s IH]; intro H; [reflexivity|]. unfold all1 in *. cbn [forallb] in H. apply andb_prop in H as [H1 H2].
+    apply Nat.eqb_eq in H1. subst d. simpl. f_equal. now apply IH.
+  Qed.
+
+  (* the operands that matter to a fold: the data operand x, copies of it, and one-element side operands *)
+  Lemma full_shape_data x vs : In x vs -> Forall (fun v => all1 (shape v) = true \/ shape v = shape x) vs ->
+    (all1 (shape x) = false -> full_shape vs = shape x) /\
+    (all1 (shape x) = true -> full_shape vs = [] /\ Forall (fun v => all1 (shape v) = true) vs).
+  Proof.
+    intros Hin Hall. unfold full_shape. split; intro Hx.
+    - destruct (find _ vs) as [y|] eqn:Ef.
+      + apply find_some in Ef as [Hy Hny]. apply negb_true_iff in Hny. rewrite Forall_forall in Hall.
+        destruct (Hall _ Hy); congruence.
+      + pose proof (find_none _ _ Ef x Hin) as H. simpl in H. rewrite Hx in H. discriminate.
+    - assert (Hs : Forall (fun v => all1 (shape v) = true) vs).
+      { eapply Forall_impl; [|exact Hall]. intros v [H|H]; auto. now rewrite H. }
+      split; auto. destruct (find _ vs) as [y|] eqn:Ef; auto.
+      apply find_some in Ef as [Hy Hny]. rewrite Forall_forall in Hs. rewrite (Hs _ Hy) in Hny. discriminate.
+  Qed.
+
+  Lemma operands_ok_data x vs : In x vs -> Forall (fun v => all1 (shape v) = true \/ shape v = shape x) vs -> operands_ok vs.
+  Proof.
+    intros Hin Hall. destruct (full_shape_data x vs Hin Hall) as [H0 H1]. unfold operands_ok.
+    destruct (all1 (shape x)) eqn:Ex.
+    - destruct (H1 eq_refl) as [_ Hs]. eapply Forall_impl; [|exact Hs]. auto.
+    - rewrite (H0 eq_refl). exact Hall.
+  Qed.
+
+  Lemma pwn_shape_data F x vs : In x vs -> Forall (fun v => all1 (shape v) = true \/ shape v = shape x) vs ->
+    Forall (fun v => length (shape v) <= length (shape x)) vs -> shape (pwn F vs) = shape x.
+  Proof.
+    intros Hin Hall Hrk. destruct (full_shape_data x vs Hin Hall) as [H0 H1].
+    pose proof (prank_le _ _ Hrk) as Hle. pose proof (prank_ge vs x Hin) as Hge.
+    unfold pwn. cbn [shape]. destruct (all1 (shape x)) eqn:Ex.
+    - destruct (H1 eq_refl) as [-> _]. simpl. rewrite app_nil_r, Nat.sub_0_r.
+      replace (prank vs) with (length (shape x)) by lia. symmetry. now apply all1_eq_repeat.
+    - rewrite (H0 eq_refl). replace (prank vs - length (shape x)) with 0 by lia. reflexivity.
   Qed.
 
   Lemma map_Forall2_eq {B C D} (f : B -> D) (g : C -> D) l l' :
@@ -122,30 +162,43 @@ Section Flat.
     - inversion HP; inversion HQ; subst; auto.
   Qed.
 
+  (* positionally corresponding lists whose elements agree on a test have corresponding first hits *)
+  Lemma find_Forall2 {B C} (R : B -> C -> Prop) (f : B -> bool) (g : C -> bool) l l' :
+    Forall2 (fun b c => R b c /\ f b = g c) l l' ->
+    match find f l, find g l' with Some b, Some c => R b c | None, None => True | _, _ => False end.
+  Proof.
+    induction 1 as [|b c l l' [Hr Hfg] _ IH]; simpl; auto. rewrite <- Hfg. destruct (f b); auto.
+  Qed.
+
+  Lemma flat_eq_all1 v w : flat_eq v w -> all1 (shape v) = all1 (shape w).
+  Proof.
+    intro H. destruct (all1 (shape v)) eqn:E.
+    - symmetry. exact (proj1 (flat_eq_scalar _ _ E H)).
+    - destruct (all1 (shape w)) eqn:E'; auto.
+      rewrite (proj1 (flat_eq_scalar _ _ E' (flat_eq_sym _ _ H))) in E. discriminate.
+  Qed.
+
   (* THE commutation law for every reshape (and every rank change by left-padding with 1s): *)
   Theorem pwn_flat F vs vs' :
-    vs <> [] -> Forall2 flat_eq vs vs' -> operands_ok vs -> operands_ok vs' -> flat_eq (pwn F vs) (pwn F vs').
+    Forall2 flat_eq vs vs' -> operands_ok vs -> operands_ok vs' -> flat_eq (pwn F vs) (pwn F vs').
   Proof.
-    intros Hne H2 Hok Hok'. destruct H2 as [|x x' r r' Hx Hr]; [congruence|].
-    assert (Hall : Forall2 flat_eq (x :: r) (x' :: r')) by (constructor; auto).
-    unfold operands_ok in Hok, Hok'.
-    pose proof (Forall2_and_Forall _ _ _ _ _ Hall Hok Hok') as Hc. clear Hall Hok Hok'.
-    destruct Hx as [Hpx Hxv].
+    intros H2 Hok Hok'. unfold operands_ok in Hok, Hok'.
+    assert (Hfs : prod (full_shape vs) = prod (full_shape vs')).
+    { unfold full_shape.
+      assert (Hc : Forall2 (fun v w => flat_eq v w /\ negb (all1 (shape v)) = negb (all1 (shape w))) vs vs').
+      { eapply Forall2_imp; [|exact H2]. intros v w H. split; auto. now rewrite (flat_eq_all1 _ _ H). }
+      pose proof (find_Forall2 _ _ _ _ _ Hc) as Hf.
+      destruct (find _ vs), (find _ vs'); try contradiction; auto. exact (proj1 Hf). }
+    pose proof (Forall2_and_Forall _ _ _ _ _ H2 Hok Hok') as Hc. clear H2 Hok Hok'.
     unfold pwn. split; cbn [shape at_].
     - now rewrite !prod_pad.
     - intros k Hk. rewrite prod_pad in Hk. f_equal. apply map_Forall2_eq.
       eapply Forall2_imp; [|exact Hc]. cbv beta. intros v v' (Hf & Hv & Hv').
-      unfold opnd. destruct (all1 (shape v)) eqn:E1.
-      + destruct (flat_eq_scalar _ _ E1 Hf) as [E1' Hs]. now rewrite E1'.
-      + destruct Hv as [Hv|Hv]; [|congruence].
-        destruct (all1 (shape v')) eqn:E1'.
-        { exfalso. destruct Hf as [Hp _]. rewrite (all1_prod _ E1') in Hp. apply prod1_all1 in Hp. congruence. }
-        destruct Hv' as [Hv'|Hv']; [|congruence].
-        rewrite !unflatten_pad by (try exact Hk; now rewrite <- Hpx).
-        destruct Hv as [Hsv Hav]. destruct Hv' as [Hsv' Hav'].
-        rewrite <- Hsv. rewrite Hav by (apply unflatten_in_range; now rewrite Hsv).
-        rewrite <- Hsv'. rewrite Hav' by (apply unflatten_in_range; rewrite Hsv'; now rewrite <- Hpx).
-        rewrite Hsv, Hsv'. now apply Hxv.
+      unfold opnd. rewrite <- (flat_eq_all1 _ _ Hf). destruct (all1 (shape v)) eqn:E1.
+      + exact (proj2 (flat_eq_scalar _ _ E1 Hf)).
+      + destruct Hv as [Hv|Hv]; [congruence|]. destruct Hv' as [Hv'|Hv']; [rewrite <- (flat_eq_all1 _ _ Hf) in Hv'; congruence|].
+        rewrite !unflatten_pad by (try exact Hk; now rewrite <- Hfs).
+        rewrite <- Hv, <- Hv'. apply (proj2 Hf). now rewrite Hv.
   Qed.
 
   Lemma tmap_flat (f g : A -> A) x x' : (forall a, f a = g a) -> flat_eq x x' -> flat_eq (tmap f x) (tmap g x').
@@ -170,7 +223,7 @@ End Flat.
 
 (* non-vacuity: Max(x[2,3], c[1,1,1]) has shape [1,2,3] and the same flattening as Max(x'[6], c) *)
 Example pwn_rank_extends :
-  shape (pwn (fun l => fold_right Nat.max 0 l) [mkT [2; 3] (fun idx => flatten [2; 3] idx); mkT [1; 1; 1] (fun _ => 4)]) = [1; 2; 3]
+  shape (pwn (fun l => fold_right Nat.max 0 l) [mkT [1; 1; 1] (fun _ => 4); mkT [2; 3] (fun idx => flatten [2; 3] idx)]) = [1; 2; 3]
   /\ map (at_ (pwn (fun l => fold_right Nat.max 0 l) [mkT [2; 3] (fun idx => flatten [2; 3] idx); mkT [1; 1; 1] (fun _ => 4)]))
        [[0; 0; 0]; [0; 1; 1]; [0; 1; 2]] = [4; 4; 5].
 Proof. split; reflexivity. Qed.
